@@ -53,7 +53,7 @@ type copyLoop struct {
 	Bytes int
 }
 
-func (b *copyLoop) SelectGPU(g []int)  { b.gpu = g[0] }
+func (b *copyLoop) SelectGPU(g []int) { b.gpu = g[0] }
 func (b *copyLoop) SetUnifiedMemory() {}
 func (b *copyLoop) Verify()           {}
 func (b *copyLoop) Run() {
@@ -116,7 +116,7 @@ type memCopy struct {
 	unified  bool
 }
 
-func (b *memCopy) SelectGPU(g []int)  { b.gpu = g[0] }
+func (b *memCopy) SelectGPU(g []int) { b.gpu = g[0] }
 func (b *memCopy) SetUnifiedMemory() { b.unified = true }
 func (b *memCopy) Verify()           {}
 func (b *memCopy) Run() {
@@ -154,7 +154,7 @@ type tinyKernels struct {
 	Seed       int
 }
 
-func (b *tinyKernels) SelectGPU(g []int)  { b.gpus = g }
+func (b *tinyKernels) SelectGPU(g []int) { b.gpus = g }
 func (b *tinyKernels) SetUnifiedMemory() {}
 func (b *tinyKernels) Verify()           {}
 func (b *tinyKernels) Run() {
